@@ -14,7 +14,8 @@ package main
 // result must fall into its enclosure.  Direct oracle (Go only, independent of
 // the Coq model): a float64 reference following the documented rule with
 // math.Exp2 (formula within +-1, forgetting after 1800 s exact), monotonicity
-// (exact) and non-negativity (exact) under a no-overflow premise computed from
+// (exact), Int() = value returned by the Increase just before (exact) and
+// non-negativity (exact) under a no-overflow premise computed from
 // the inputs alone.
 
 import (
@@ -317,7 +318,7 @@ func oracle(h history, out []uint32, count func(string)) oracleResult {
 	var prevQuery int64 = -1 // score read at the same instant just before an Inc
 	prevQueryNow := int64(0)
 	var afterInc *event
-	var afterBase int64
+	var afterBase, afterRet int64
 	for i, e := range h.evs {
 		now += e.step
 		count(stepClass(e.step))
@@ -371,7 +372,15 @@ func oracle(h history, out []uint32, count func(string)) oracleResult {
 				count("int_unsynced")
 			}
 			if afterInc != nil && i > 0 && e.step == 0 {
-				// score right after Increase at the same instant
+				// score right after Increase at the same instant: with a transient increment the
+				// age is 0 and the decay factor 1, so Int() is exactly the value Increase returned
+				if afterInc.t > 0 {
+					if o != afterRet {
+						fail("returned-score", "event %d: Int() = %d right after Increase(%d,%d) returned %d at the same instant", i, o, afterInc.p, afterInc.t, afterRet)
+					} else {
+						count("returned_score_checked")
+					}
+				}
 				if noOverflow && afterBase >= 0 && o < afterBase+int64(afterInc.p) {
 					fail("monotone", "event %d: score %d after Increase(%d,%d) is below score before %d + %d", i, o, afterInc.p, afterInc.t, afterBase, afterInc.p)
 				} else if noOverflow && afterBase >= 0 {
@@ -424,6 +433,7 @@ func oracle(h history, out []uint32, count func(string)) oracleResult {
 			}
 			ev := e
 			afterInc = &ev
+			afterRet = r
 			if prevQuery >= 0 && prevQueryNow == now && e.step == 0 {
 				afterBase = prevQuery
 			} else {
@@ -478,7 +488,7 @@ func run(c *Ctx) error {
 		return new(trust.DynamicBanScore)
 	})
 
-	n := c.N(2500, 12000)
+	n := c.N(2500, 9000)
 	// fixed boundary histories first (regression witnesses and exact boundaries)
 	fixed := []history{
 		{"fixed", 1000, []event{{kInc, 0, 0, 100}, {kQuery, 1, 0, 0}, {kQuery, 62, 0, 0}, {kQuery, 1, 0, 0}, {kInc, -34, 0, 1}}},
@@ -557,7 +567,7 @@ func run(c *Ctx) error {
 			}
 		}
 	}
-	c.Stats.Rule = "a case is one package (p2p/security or p2p/trust), a start clock (realistic unix time, near 0, negative, near 2^40) and a history of 1..~60 events Increase(p,t) / Int() / Reset(), each after a time step drawn from boundary steps (0, 1, 59, 60, 61, 62..67 around the precomputed table end, 1799, 1800, 1801, multiples of 60), random steps and negative steps; amounts are 0, 1, 2, the node's real range 1..120, powers of two (exact halving to 1.0), and values at 2^31 and 2^32-1 (uint32 overflow); distinct = distinct (package, history); non-trivial = at least two results and some Int() observed a transient part >= 1 decayed over dt > 0; every result is checked by the oracle (formula within 1 against a math.Exp2 reference, exact forgetting after 1800 s, monotonicity and non-negativity under a no-overflow premise computed from the inputs) and must fall into the Coq interval model's enclosure (first index outside = mismatch)"
+	c.Stats.Rule = "a case is one package (p2p/security or p2p/trust), a start clock (realistic unix time, near 0, negative, near 2^40) and a history of 1..~60 events Increase(p,t) / Int() / Reset(), each after a time step drawn from boundary steps (0, 1, 59, 60, 61, 62..67 around the precomputed table end, 1799, 1800, 1801, multiples of 60), random steps and negative steps; amounts are 0, 1, 2, the node's real range 1..120, powers of two (exact halving to 1.0), and values at 2^31 and 2^32-1 (uint32 overflow); distinct = distinct (package, history); non-trivial = at least two results and some Int() observed a transient part >= 1 decayed over dt > 0; every result is checked by the oracle (formula within 1 against a math.Exp2 reference, exact forgetting after 1800 s, Int() equal to the value just returned by Increase(p,t>0), monotonicity and non-negativity under a no-overflow premise computed from the inputs) and must fall into the Coq interval model's enclosure (first index outside = mismatch)"
 	header := "From Coq Require Import ZArith List.\nFrom C35 Require Import Model Run.\nImport ListNotations.\nOpen Scope Z_scope.\n"
 	c.Cases.Shard = c.N(400, 800)
 	return c.Cases.Write(c.Out, header, "Z", "Z.eqb")
